@@ -6,8 +6,10 @@
    Statements only (proofs in Proofs/SrcTie*P.v). *)
 From Coq Require Import List Bool ZArith String Ascii.
 Import ListNotations.
-Require Import MV.Model.PySem MV.Spec.Types MV.Model.LinkSel MV.Gen.Src MV.Gen.SrcPlan MV.Gen.TypeTables MV.Proofs.SrcTieP.
+Require Import MV.Model.PySem MV.Spec.Types MV.Model.LinkSel MV.Gen.Src MV.Gen.SrcPlan MV.Gen.SrcOpt MV.Gen.TypeTables
+  MV.Proofs.SrcTieP.
 Require MV.Model.Orch MV.Model.Naming MV.Model.ChainParser MV.Model.PlannerA MV.Model.PlannerL MV.Model.PyObj.
+Require MV.Model.Options MV.Model.PyObjOpt.
 
 (* ---------------- C18: mloda/core/abstract_plugins/components/index/index.py ---------------- *)
 (* Index.is_a_part_of_ never raises (the t[i] it contains stays in range) and is the model C18_index_prefix is about *)
@@ -198,6 +200,51 @@ Theorem SrcTie_get_ordered_data_model : forall t,
 Proof. exact get_ordered_data_model. Qed.
 Print Assumptions SrcTie_get_ordered_data_model.
 
+(* ---------------- C15, options (round 2): coq/Gen/SrcOpt.v; data model of the objects: Model/PyObjOpt.v ---------------- *)
+(* components/options.py  Options.get never raises (self.group[key] is read under `if key in self.group`) and is o_get *)
+Theorem SrcTie_options_get : forall s k, Options_get s k = Ok (Options.o_get k s).
+Proof. exact options_get_src. Qed.
+Print Assumptions SrcTie_options_get.
+
+Theorem SrcTie_options_items : forall s, Options_items s = Options.o_items s.
+Proof. exact options_items_src. Qed.
+Print Assumptions SrcTie_options_items.
+
+(* components/validators/options_validator.py  validate_can_add_to_group = the two tests of o_add_group *)
+Theorem SrcTie_validate_can_add_to_group : forall k v g c,
+  OptionsValidator_validate_can_add_to_group k v g c = if add_group_rejects k v g c then Raise ValueError else Ok tt.
+Proof. exact validate_can_add_to_group_src. Qed.
+Print Assumptions SrcTie_validate_can_add_to_group.
+
+(* Options.add_to_group / Options.add: the object left behind and the exception, as Model/Options.v has them
+   (PyObjOpt.of_oerr: (s, None) = (Ok tt, s), (s, Some EValue) = (Raise ValueError, s), (s, Some EType) = (Raise TypeError, s)) *)
+Theorem SrcTie_options_add_to_group : forall s k v, Options_add_to_group s k v = PyObjOpt.of_oerr (Options.o_add_group k v s).
+Proof. exact options_add_to_group_src. Qed.
+Print Assumptions SrcTie_options_add_to_group.
+
+Theorem SrcTie_options_add : forall s k v, Options_add s k v = PyObjOpt.of_oerr (Options.o_step s (Options.OpAdd k v)).
+Proof. exact options_add_src. Qed.
+Print Assumptions SrcTie_options_add.
+
+(* components/feature_collection.py  Features.merge_options.  The final call feature_options.update_with_protected_keys(child)
+   is a PARAMETER (not translated: dict comprehension with a filter, del, default argument).  For EVERY callee: TypeError when
+   the value under feature_chainer_parser_key cannot be iterated, ValueError when a key that is not protected has different
+   values on the two sides - nothing is changed in both cases -, otherwise the call *)
+Theorem SrcTie_merge_options : forall (upd : Options.ostate -> Options.ostate -> res unit * Options.ostate) s child,
+  Features_merge_options upd s child
+  = match Options.default_protected s with
+    | None => (Raise TypeError, s)
+    | Some pk => if merge_conflict pk s child then (Raise ValueError, s) else upd s child
+    end.
+Proof. exact merge_options_src. Qed.
+Print Assumptions SrcTie_merge_options.
+
+(* with the callee as Model/Options.v has it (o_update with the default protected keys) the method is o_merge *)
+Theorem SrcTie_merge_options_model : forall s child,
+  Features_merge_options update_model s child = PyObjOpt.of_oerr (Options.o_merge child s).
+Proof. exact merge_options_model. Qed.
+Print Assumptions SrcTie_merge_options_model.
+
 (* non-vacuity: the regenerated definitions compute, on both sides of each decision *)
 Example SrcTie_examples :
   Index_is_a_part_of_ ["a"%string] ["a"%string; "b"%string] = Ok true /\
@@ -233,4 +280,17 @@ Example SrcTie_plan_examples :
   PlannerL.t_order (snd (LinkTrekker_order_ordered_ids_by_relation
     {| PlannerL.t_data := []; PlannerL.t_dor := []; PlannerL.t_order := [(4, [0]); (8, [4])]%nat |}))
   = [(8, [4]); (4, [0])]%nat.
+Proof. vm_compute. repeat split. Qed.
+
+(* the option targets compute: a child value that differs under a key that is not protected is a ValueError and leaves the
+   parent as it was; under a key listed by the parent's feature_chainer_parser_key it is not *)
+Example SrcTie_opt_examples :
+  let a := Options.KStr "a" in
+  let parent v := {| Options.og := (a, Options.VInt 1) :: v; Options.oc := []; Options.opk := [] |} in
+  let child := {| Options.og := [(a, Options.VInt 2)]; Options.oc := []; Options.opk := [] |} in
+  fst (Features_merge_options update_model (parent []) child) = Raise ValueError /\
+  fst (Features_merge_options update_model (parent [(Options.k_chainer, Options.VList [Options.VStr "a"])]) child) = Ok tt /\
+  Options_get (parent []) a = Ok (Options.VInt 1) /\
+  fst (Options_add (parent []) a (Options.VInt 2)) = Raise ValueError /\
+  fst (Options_add (parent []) a (Options.VBool true)) = Ok tt.
 Proof. vm_compute. repeat split. Qed.
